@@ -515,6 +515,50 @@ pub fn crowded_builder(rng: &mut Rng) -> BoardBuilder {
 
 /// kings and rooks on home squares in every colour assignment, shielded from each other, random rights:
 /// exercises the "right backed by king and rook of that colour at home" test against look-alikes
+/// One side owns almost the whole board and nearly every one of its men can move: all squares filled
+/// with officers of the side to move except a random 8-30% of holes.  Such boards are accepted by the
+/// library's validation (it does not count men), so its move list must cope with 40-55 movable men.
+pub fn lattice_builder(rng: &mut Rng) -> BoardBuilder {
+    loop {
+        let mut p = RPos::empty();
+        let stm = rng.below(2) as u8;
+        p.stm = stm;
+        let any = rng.below(64) as u8;
+        let ek = *rng.pick(&[0u8, 7, 56, 63, 3, 60, 24, 39, any]);
+        p.sq[ek as usize] = pc(K, stm ^ 1);
+        let mut k = rng.below(64) as u8;
+        while k == ek || ((k & 7) as i8 - (ek & 7) as i8).abs() <= 1 && ((k >> 3) as i8 - (ek >> 3) as i8).abs() <= 1 {
+            k = rng.below(64) as u8;
+        }
+        p.sq[k as usize] = pc(K, stm);
+        let holes = rng.range(8, 30) as u64;
+        let pawn_share = *rng.pick(&[0u64, 0, 10, 30]);
+        for s in 0..64u8 {
+            if p.sq[s as usize] != 0 || rng.chance(holes, 100) {
+                continue;
+            }
+            let kd = if rng.chance(pawn_share, 100) && s >> 3 != 0 && s >> 3 != 7 { P } else { *rng.pick(&[Q, Q, N, R, B, Q, N]) };
+            p.sq[s as usize] = pc(kd, stm);
+        }
+        for _ in 0..64 {
+            let att = p.attackers(ek, stm);
+            if att == 0 {
+                break;
+            }
+            let s = att.trailing_zeros() as usize;
+            if kind(p.sq[s]) == K {
+                break;
+            }
+            // replace by something harmless if possible, else leave a hole
+            p.sq[s] = 0;
+        }
+        if p.attackers(ek, stm) != 0 {
+            continue;
+        }
+        return builder_from_model(&p);
+    }
+}
+
 pub fn home_square_confusion(rng: &mut Rng) -> BoardBuilder {
     let mut p = RPos::empty();
     let swap = rng.chance(1, 2);
@@ -652,6 +696,9 @@ pub fn run_c07(ctx: &Ctx, rep: &mut Report) {
             let bb = crowded_builder(rng);
             rep.count("ev_crowded_submitted");
             judge_builder(&bb, "crowded", false, rep);
+            let bb = lattice_builder(rng);
+            rep.count("ev_lattice_submitted");
+            judge_builder(&bb, "lattice", false, rep);
         }
     });
     // text stream
